@@ -192,8 +192,14 @@ func VerifC08_Tree() {
 	L := zzBound("L", 2, 3)
 	withFS := zzBool("withfs")
 	var base Template
+	cfgJ := "" // what the configuration files say about j (the lowest source)
 	if withFS {
-		base = NewFS(newZZFS(map[string]string{"page.vuego": "---\nfmk: FMK\n---\n<p>x</p>"}))
+		files := map[string]string{"page.vuego": "---\nfmk: FMK\n---\n<p>x</p>"}
+		if zzBool("withconfig") {
+			files["theme.yml"] = "j: CFG\nth: T\n"
+			cfgJ = "CFG"
+		}
+		base = NewFS(newZZFS(files))
 	} else {
 		base = New()
 	}
@@ -205,7 +211,10 @@ func VerifC08_Tree() {
 	}
 	tpls := []Template{base}
 	// what each template must see for the keys k, j
-	want := []map[string]string{{"k": base.Get("k"), "j": ""}}
+	want := []map[string]string{{"k": base.Get("k"), "j": cfgJ}}
+	if bf := base.Get("j"); bf != cfgJ {
+		zzAssert(false, "C08.tree.j-isolated")
+	}
 	for step := 0; step < L; step++ {
 		target := zzChoice("target", len(tpls))
 		switch zzChoice("op", 5) {
@@ -230,7 +239,7 @@ func VerifC08_Tree() {
 			v := "F" + string(rune('0'+step))
 			tpls[target].Fill(map[string]any{"k": v})
 			want[target]["k"] = v
-			want[target]["j"] = ""
+			want[target]["j"] = cfgJ // a Fill that does not mention j leaves the configuration's value
 		}
 		for i := range tpls {
 			zzNote("template", i)
